@@ -30,3 +30,6 @@ import json,sys; v=json.load(open('/verif/$r')); print('   ', v.get('kind'), (v.
   done
 done
 git -C /repo worktree remove --force $wt; rm -f /tmp/seed_$name.*
+# regenerate lean/PyIpmi/Gen (and the evidence) from /repo again: a scratch-tree run rewrites Gen
+for id in "$@"; do (cd /verif && ./check $id >/dev/null 2>&1); done
+
